@@ -1,5 +1,5 @@
 #!/bin/bash
-# good_variants.sh [jobs]: the false-alarm side of the seeded changes. Round 11 delivered every pull request in two variants: patch.diff
+# good_variants.sh [jobs]  (ALL=1: every check instead of the related ones): the false-alarm side of the seeded changes. Round 11 delivered every pull request in two variants: patch.diff
 # (one realistic slip, breaks a property) and patch_good.diff (the same improvement done right - it changes behaviour only where the
 # statements are silent, e.g. it repairs a known finding). The registered quick checks related to the touched code must stay SILENT
 # (exit 0) on every good variant. Uses scratch copies of /repo's working tree (tools/run_seeded.py); nothing touches /repo.
@@ -7,6 +7,7 @@ jobs=${1:-3}
 cd "$(dirname "$0")/.."
 base=$(mktemp -d -p /dev/shm good_XXXX)
 related() {
+  if [ -n "$ALL" ]; then echo C01,C02,C03,C04,C05,C06,C07,C08,C09,C10,C11,C12,C13,C14,C15,C16,C17,C18,C19,C20; return; fi
   case $1 in
     C01*) echo C01,C02,C03,C04,C07,C14,C20 ;; C02*) echo C01,C02,C04,C07,C13 ;; C06*) echo C05,C06,C11,C20 ;;
     C08*) echo C08,C09,C10,C11,C12,C13 ;; C09*) echo C09,C10,C11,C12,C13,C18 ;; C13*) echo C01,C02,C04,C07,C08,C10,C11,C12,C13 ;;
